@@ -12,7 +12,7 @@ MANIFEST = dict(
          "completed; slot_atomic: if every access to a protected value happens under its lock, the projection of any run on that "
          "value is a sequence of whole critical sections, one thread each, in each thread's program order - so a request that "
          "takes a channel slot once is atomic for that channel and C01-C03 transfer to concurrent histories. The lock programs of "
-         "57 request kinds (14 of them real protocol messages through ChannelHandler / RootHandler::do_handle at protocol 4 and 6) (commitment updates, new/setup/forget channel, balance, chaninfo and heartbeat queries, invoice and "
+         "58 request kinds (14 of them real protocol messages through ChannelHandler / RootHandler::do_handle at protocol 4 and 6) (commitment updates, new/setup/forget channel, balance, chaninfo and heartbeat queries, invoice and "
          "keysend approval, allowlist, on-chain check and sign, block add/remove compact and streamed, persist_all) are RECORDED "
          "FROM THE REAL CODE on every run through an instrumented Mutex (hook cfg(vls_verif), vls-core/src/verif_sync.rs) and "
          "written to Gen/LockProgs.v; the rank is SEARCHED by tools/gen_locks.py (topological order of the observed lock-order "
@@ -27,7 +27,11 @@ MANIFEST = dict(
          "replies + final stored state, in-memory channel state and the in-memory node payment ledger and the content of both replies must equal those of P;Q or Q;P. NOT covered: equality of replies and "
          "of cross-channel node state with a sequential order (linearizability) is not proved; data-dependent lock paths that the "
          "recording corpus does not take are invisible to the recorder; atomics / memory model; try_lock (not used by the code; "
-         "its appearance is an error).",
+         "its appearance is an error). Lock-free counters (Atomic* fields of the key manager: generated channel ids, entropy, "
+         "base-point indices) are translated from the source (per function the atomic operations; a read-modify-write is one "
+         "event): C20_counters_rmw (no separate store, by computation) and C20_generated_ids_distinct_partial (for every "
+         "interleaving of the atomic events the values handed out are pairwise distinct; sequentially consistent model, one "
+         "counter at a time); on the real code only a stress test (8 threads x rounds, no schedule control) checks them.",
     design="§4 C20, §6",
     note="Trusted: Coq 8.16.1 kernel and vm_compute (no native_compute); no axioms; the recorder (vls-core/src/verif_sync.rs: a thin "
          "wrapper over std::sync::Mutex, reports attempt/acquire/release and Deref accesses), harness/src/bin/locks.rs (drives the "
@@ -43,7 +47,8 @@ MANIFEST = dict(
 PINNED = ["C20_ranked", "C20_guarded", "C20_deadlock_free_partial", "C20_completes_partial", "C20_slot_atomic_partial",
           "C20_sections_at_quiescence", "C20_updates_single_section", "C20_listed_inversions_deadlock", "C20_nonvacuous",
           "C20_old_forget_channel_refuted", "C20_old_forget_channel_unrankable", "C20_old_races_deadlock",
-          "C20_old_inversions_unrankable", "C20_old_programs_unrankable", "C20_checker_rejects_inversion"]
+          "C20_old_inversions_unrankable", "C20_old_programs_unrankable", "C20_checker_rejects_inversion",
+          "C20_counters_rmw", "C20_generated_ids_distinct_partial", "C20_load_store_refuted", "C20_counters_nonvacuous"]
 
 FALLBACK_KNOWN = os.path.join(lib.ROOT, "notes", "fixes", "C20-known-findings.json")
 
@@ -144,6 +149,13 @@ def run(res):
     # 2. listed inversions: replay one deadlock each (evidence + Coq witness), print KNOWN-FINDING
     listed = []
     ana["known_witnesses"] = []
+    # lock-free shared state: the atomic operations per function, read from the source
+    try:
+        ana["atomics"] = gen_locks.atomic_programs(lib.REPO)
+    except gen_locks.GenError as e:
+        ana["atomics"] = {"programs": [], "fields": {}}
+        res.violation("the atomics of vls-core could not be translated: " + str(e), {"error": str(e)}, has_input=False)
+    non_rmw = [a for a in ana["atomics"]["programs"] if "St" in a["ops"]]
     for k in known:
         ws = ana["known_used"].get(k["id"], [])
         if not ws:
@@ -219,7 +231,7 @@ def run(res):
                             stdout=subprocess.PIPE, stderr=subprocess.PIPE, text=True, errors="replace", timeout=600)
         plan = [json.loads(l[7:]) for l in pl.stdout.splitlines() if l.startswith("@@PLAN ")]
         # tier 1 completely, of tier 2 (seeded rotation) what keeps the quick run under a minute
-        n_sweep = (plan[0]["tier1"] + min(plan[0]["tier2"], 2000)) if plan else 5000
+        n_sweep = (plan[0]["tier1"] + min(plan[0]["tier2"], 1200)) if plan else 5000
     nshards = min(8, max(1, lib.NCPU // 2))
     sweep = {"races": 0, "completed": 0, "blocked_then_completed": 0, "program_changed": 0, "panicked": 0,
              "unpreparable": 0, "serializable": 0, "not_serializable": 0, "sequential_unavailable": 0,
@@ -320,6 +332,29 @@ def run(res):
                       % (" || ".join(o["spec"]), o["replies"], ", ".join(closest["differing_keys"][:4]) or "none", content),
                       {"domain": "locks-sweep", "command": "harness locks race " + " ".join(o["spec"]), "case": o}, has_input=True)
 
+    # lock-free counters: named finding for a non-atomic update, and a STRESS TEST (no schedule control: the
+    # mutex hook cannot pause inside an atomic) of the requests that use them
+    for a in non_rmw:
+        res.violation("%s (%s) in %s::%s is updated with separate atomic %s events instead of one read-modify-write: "
+                      "two threads can be handed the same value" % (a["field"], a["type"], a["file"], a["function"], "/".join(a["ops"])),
+                      {"translator": "tools/gen_locks.py atomic_programs", "program": a, "model_witness": "Props/C20.v C20_load_store_refuted"},
+                      has_input=False)
+    n_rounds = 300 if quick else 6000
+    sp = subprocess.run([exe, "stress", "--seed", str(res.seed), "--n", str(n_rounds), "--tier", res.tier],
+                        stdout=subprocess.PIPE, stderr=subprocess.PIPE, text=True, errors="replace", timeout=1800)
+    stress = None
+    for line in sp.stdout.splitlines():
+        if line.startswith("@@STRESS "):
+            stress = json.loads(line[9:])
+    if stress is None:
+        raise lib.Fail("locks stress did not report:\n" + sp.stderr[-1500:])
+    for f in stress["failures"][:2]:
+        res.violation("%d concurrent %s requests were answered with %d distinct values%s; sequentially every request gets its own"
+                      % (f["threads"], f["request"], f["distinct_values"],
+                         (" and left %d new channels" % f["channels_created"]) if f["request"].startswith("new_channel") else ""),
+                      {"domain": "locks-stress", "command": "harness locks stress --n %d" % n_rounds, "round": f,
+                       "note": "stress test without schedule control: the round's requests and replies are the replay"}, has_input=True)
+
     # every commitment update must be one critical section of its channel (the Coq obligation
     # C20_updates_single_section says the same; here with the request named)
     for p in progs:
@@ -353,8 +388,11 @@ def run(res):
         outcomes[p["outcome"]] = outcomes.get(p["outcome"], 0) + 1
     sample = by_name.get("validate_holder_commitment", progs[0])
     cov.update({
-        "evaluations": len(progs) + len(replays) + len([l for l in listed if l["replay"]]) + sweep["races"],
+        "evaluations": len(progs) + len(replays) + len([l for l in listed if l["replay"]]) + sweep["races"] + stress["rounds"],
         "sweep": sweep,
+        "stress": {k: v for k, v in stress.items() if k != "failures"} | {"failed_rounds": len(stress["failures"])},
+        "atomic_fields": ana["atomics"]["fields"],
+        "atomic_programs": [{k: a[k] for k in ("field", "function", "ops")} for a in ana["atomics"]["programs"]],
         "map_check_then_act_requests": cta,
         "node_state_check_then_act_requests": cta_s,
         "tracker_and_slot_check_then_act_requests": cta_tc,
@@ -378,7 +416,9 @@ def run(res):
                 "each channel slot (static test on T and C), and every pause point of the three heartbeat kinds against every block "
                 "request; quick: all of tiers 1 and 2, "
                 "thorough: 16000; "
-                "run on 8 processes. All must complete, and replies + final "
+                "run on 8 processes. Stress (NOT an exploration, no schedule control): rounds of 8 threads released together, each asking "
+                "for a generated channel id (new_channel_with_random_id; every 4th round: entropy) - lock-free counters that the "
+                "mutex hook cannot steer; a round must give 8 Ok replies, 8 distinct values, 8 new stubs. All must complete, and replies + final "
                 "state (every stored record without versions, every channel's in-memory enforcement state, the node payment ledger; "
                 "order-insensitive) and the CONTENT of the replies (heartbeat tip/height/time, balances, chaninfo, points, secrets, "
                 "signatures with their commitment number, channel ids) "
